@@ -704,7 +704,7 @@ def _judge_tr(ep, case, cs, seqs, wants, got):
     if isinstance(got, dict):
         if (rejected or strict_len) and got["err"] in ("AlphabetError", "ValueError"):
             return None  # rejected as requested (or: length not divisible by 3 with incomplete_ok=False)
-        if not seqs or all(len(s) == 0 for s in seqs) or all((w or "") == "" for w in wants):
+        if not seqs or any(len(s) == 0 for s in seqs) or any(w == "" for w in wants):
             return None  # empty sequences / empty translations: construction and codon look-up errors on the
             # empty string are outside the property
         cls = "raises:" + got["err"]
@@ -800,7 +800,7 @@ def _cases(ctx, rng, budget):
     # collections / alignments / app
     for _ in range(25 * budget):
         code = rng.choice(both)
-        n = rng.choice([6, 9, 12]) if rng.random() < 0.7 else rng.randint(3, 14)
+        n = rng.choice([6, 9, 12]) if rng.random() < 0.7 else rng.randint(4, 14)
         stops = [c for c, a in _oracle_table(_code_seqs()[code]).items() if a == "*"] or ["GCT"]
         mode = rng.choice(["nostop", "allterminal", "mixed", "internal"])
         seqs = []
